@@ -1,6 +1,7 @@
 package edit
 
 import (
+	"time"
 	"fmt"
 	"strings"
 
@@ -71,12 +72,16 @@ func c36(r *Rec) eng.Res {
 func init() {
 	register(&checkDef{
 		ID: "C36", Oracle: c36,
-		Rule: "breadth-first search over edit histories: a state is a source text (Format of the returned AST); from each of the seed diagrams (unique label on every element; containers, parallel connections, chains, styles, classes, globs, imports, layers, scenarios, steps) every edit of the state's menu — Create / Set / Delete / Rename / Move / ReconnectEdge instantiated from the state's own boards, objects, connections and set attributes — is executed by the real d2oracle on a fresh graph compiled from the text; successor texts are deduplicated; every transition is a distinct (state, edit) pair; non-trivial = the edit succeeded and changed the text. A second phase enumerates UpdateImport over import spellings x old/new paths.",
+		Rule: "breadth-first search over edit histories: a state is a source text (Format of the returned AST); from each of the seed diagrams (unique label on every element; containers, parallel connections, chains, styles, classes, globs, imports, layers, scenarios, steps) every edit of the state's menu — Create / Set / Delete / Rename / Move / ReconnectEdge instantiated from the state's own boards, objects, connections and set attributes — is executed by the real d2oracle on a fresh graph compiled from the text; successor texts are deduplicated; every transition is a distinct (state, edit) pair; non-trivial = the edit succeeded and changed the text. A second phase enumerates UpdateImport over import spellings x old/new paths. A third phase enumerates every history of length ≤3 (thorough 4) over a fixed 17-edit menu from two seed diagrams in which each edit is applied to the GRAPH RETURNED by the previous edit, all in one process (including histories that return to an earlier text), and checks the property after every step.",
 		Assume: []string{
 			"the graph comparison uses the position-free canonical projection of all boards (u.Canon without config: d2oracle's recompile does not return the config)",
 			"panics and refusals of an edit are counted (panics_observed, edits_refused) but are not violations: the statement speaks of successful edits only",
 			"import update: the old path is always given in the spelling used by the text, the renamed file set contains the file under its new name only; removal (nil) is checked against the unchanged file set",
 		},
-		Extra: c36ImportPhase, ExtraOracles: map[string]eng.Oracle{"import": importOracle},
+		Extra: func(p *eng.Solo, cov map[string]any, deadline time.Time) bool {
+			a := c36ImportPhase(p, cov, deadline)
+			b := c36ChainPhase(p, cov, deadline)
+			return a && b
+		}, ExtraOracles: map[string]eng.Oracle{"import": importOracle, "chain": chainOracle},
 	})
 }
